@@ -15,13 +15,13 @@ import (
 
 // pnode is one contract frame of a generated precompile-free program.
 type pnode struct {
-	pre   []evmasm.Step // constructor steps (pre-set storage that the runtime clears for refunds)
-	steps []evmasm.Step // filled at deploy time
-	plan  []pstep
-	end   string // "", "revert", "invalid", "burn"
-	addr  common.Address
-	fund  *big.Int
-	sdTo  common.Address
+	pre    []evmasm.Step // constructor steps (pre-set storage that the runtime clears for refunds)
+	steps  []evmasm.Step // filled at deploy time
+	plan   []pstep
+	end    string // "", "revert", "invalid", "burn"
+	addr   common.Address
+	fund   *big.Int
+	sdTo   common.Address
 	sdSelf bool
 }
 
